@@ -31,7 +31,7 @@ PROPS = {
         domains=[("codec", "build", 12000, 150000)],
         relevant=["C02:"],
         theorems=['DV.Props.C02.C02_pad4', 'DV.Props.C02.C02_pad4_spec', 'DV.Props.C02.C02_uint24to32', 'DV.Props.C02.C02_uint32to24', 'DV.Props.C02.C02_uint24_roundtrip', 'DV.Props.C02.C02_be3_rd', 'DV.Props.C02.C02_time_enc', 'DV.Props.C02.C02_time_roundtrip', 'DV.Props.C02.C02_time_model', 'DV.Props.C02.C02_ref_enc_avps', 'DV.Props.C02.C02_ref_enc_msg', 'DV.Props.C02.C02_ref_dec', 'DV.Props.C02.C02_len_mod4', 'DV.Props.C02.C02_length', 'DV.Props.C02.C02_new_message', 'DV.Props.C02.C02_layout', 'DV.Props.C02.C02_gen', 'DV.Props.C02.C02_header_roundtrip'],
-        gen_obligations=['Gen.pad4', 'Gen.uint24to32', 'Gen.uint32to24', 'Gen.timeEnc', 'Gen.timeDecLow', 'Gen.timeDecHigh', 'Gen.hdrLayoutEnc', 'Gen.hdrLayoutDec', 'Gen.avpLayoutEnc', 'Gen.avpLayoutDec', 'Gen.rfc868offset', 'Gen.rfc2030offset'],
+        gen_obligations=['Gen.pad4', 'Gen.uint24to32', 'Gen.uint32to24', 'Gen.timeEnc', 'Gen.timeDecLow', 'Gen.timeDecHigh', 'Gen.hdrLayoutEnc', 'Gen.hdrLayoutDec', 'Gen.avpLayoutEnc', 'Gen.avpLayoutDec', 'Gen.rfc868offset', 'Gen.rfc2030offset', 'Gen.groupedStructFields', 'Gen.avpStructFields'],
         trusted=CODEC_TRUST,
     ),
     "C03": dict(
@@ -104,7 +104,7 @@ PROPS = {
         domains=[("codec", "find", 8000, 120000), ("codec", "findn", 2000, 30000)],
         relevant=["C20:"],
         theorems=['DV.Props.C20.C20_all', 'DV.Props.C20.C20_first', 'DV.Props.C20.C20_first_sound', 'DV.Props.C20.C20_all_sound', 'DV.Props.C20.C20_path', 'DV.Props.C20.C20_gen'],
-        gen_obligations=['Gen.GroupedAVPType'],
+        gen_obligations=['Gen.GroupedAVPType', 'Gen.messageStructFields', 'Gen.groupedStructFields'],
         trusted=CODEC_TRUST,
     ),
     "C08": dict(
